@@ -43,7 +43,7 @@ for pid in sorted(claimed):
 na=[{"property_id":p['id'],"reason":reasons.get(p['id'],"no check registered yet: the solver-based harness for this property (DESIGN.md section 4) has not been brought to a clean run")} for p in props if p['id'] not in claimed]
 m={
  "version":1,
- "setup_cmd":"cd /verif/engine && GOFLAGS=-mod=mod GOPROXY=off GOSUMDB=off GOTOOLCHAIN=local go build -o ../bin/gosym .",
+ "setup_cmd":"cd /verif/engine && GOFLAGS=-mod=mod GOPROXY=off GOSUMDB=off GOTOOLCHAIN=local go build -o ../bin/gosym . && ../bin/gosym selftest",
  "hooks":{"guard":"verif","enable":"harness files (//go:build verif) and package servitor/verifrt are injected by overlay at check time (go/packages Overlay and go test -overlay -tags verif); nothing is added to /repo","baseline_off_cmd":"cd /repo && GOFLAGS=-mod=mod GOPROXY=off go test -vet=off -count=1 ./...","source_commits":[],"add_only":True},
  "engines":[{"name":"gosym","path":"/verif/engine","serves_properties":sorted(claimed),"kind_free_text":"symbolic interpreter for go/ssa (x/tools v0.29.0) with SMT-LIB2 back end (z3 -in), stateless DFS by re-execution, native replay"}],
  "checks":checks,
